@@ -118,7 +118,7 @@ class RefreshTimer(Module):
         self.sync += [
             If(self.wait & ~self.done,
                 count.eq(count - 1)
-            ).Else(
+            ).Elif(~self.wait,
                 count.eq(count.reset)
             )
         ]
